@@ -146,7 +146,7 @@ harness(void)
 	IN(int, in_outmode);        /* 0: NULL, 1: "-", 2: a path */
 	IN(bool, in_namedash);
 	/* the environment's choices */
-	IN(int, in_pidbase);
+	IN(int, in_pidhi);          /* pids are (in_pidhi << 3) + 0..7 */
 	IN(int, in_sp0); IN(int, in_sp1); IN(int, in_sp2); IN(int, in_sp3);
 	IN(u8, in_wp0); IN(u8, in_wp1); IN(u8, in_wp2); IN(u8, in_wp3); IN(u8, in_wp4);
 	IN(bool, in_wu0); IN(bool, in_wu1); IN(bool, in_wu2); IN(bool, in_wu3); IN(bool, in_wu4);
@@ -155,12 +155,12 @@ harness(void)
 	IN(int, in_mk);
 	ING(int, g_k);
 
-	__CPROVER_assume(in_pidbase >= 1 && in_pidbase <= 0x7fff0000);
+	__CPROVER_assume(in_pidhi >= 1 && in_pidhi <= 15);
 	__CPROVER_assume(in_nunknown >= 0 && in_nunknown <= 1);
 	__CPROVER_assume(osm_status_valid(in_ws0) && osm_status_valid(in_ws1) && osm_status_valid(in_ws2) &&
 	                 osm_status_valid(in_ws3) && osm_status_valid(in_ws4));
 	__CPROVER_assume(in_mk >= 0);
-	osm_tape.pidbase = in_pidbase;
+	osm_tape.pidbase = in_pidhi << 3;
 	osm_tape.spawn_err[0] = in_sp0; osm_tape.spawn_err[1] = in_sp1; osm_tape.spawn_err[2] = in_sp2; osm_tape.spawn_err[3] = in_sp3;
 	osm_tape.wait_pick[0] = in_wp0; osm_tape.wait_pick[1] = in_wp1; osm_tape.wait_pick[2] = in_wp2; osm_tape.wait_pick[3] = in_wp3; osm_tape.wait_pick[4] = in_wp4;
 	osm_tape.wait_unknown[0] = in_wu0; osm_tape.wait_unknown[1] = in_wu1; osm_tape.wait_unknown[2] = in_wu2; osm_tape.wait_unknown[3] = in_wu3; osm_tape.wait_unknown[4] = in_wu4;
